@@ -60,6 +60,10 @@ pub struct Case {
   /// executor runs as timers fall due (then exact times are required)
   prompt: bool,
   acts: Vec<Act>,
+  /// prompt arm: the executor runs for the first time only half-way to the
+  /// first due time (still before anything falls due), promptly from then on
+  #[serde(default)]
+  late_start: bool,
 }
 
 #[derive(Default)]
@@ -207,7 +211,7 @@ impl Scenario for C08 {
         _ => Act::SpuriousPoll(rng.below(4) as u16),
       });
     }
-    serde_json::to_value(Case { src, shared_sched: rng.chance(1, 2), sub_after: *rng.pick(&[0u32, 0, 0, 2]), prompt: rng.chance(1, 2), acts }).unwrap()
+    serde_json::to_value(Case { src, shared_sched: rng.chance(1, 2), sub_after: *rng.pick(&[0u32, 0, 0, 2]), prompt: rng.chance(1, 2), acts, late_start: rng.chance(1, 3) }).unwrap()
   }
 
   fn run(&self, case: &Value) -> Result<Outcome, String> {
@@ -291,6 +295,19 @@ impl Scenario for C08 {
       }
     };
     if case.prompt {
+      if case.late_start {
+        let first_due = match &case.src {
+          Src::Interval { p, .. } => t_sub + *p as u64 * MS,
+          Src::IntervalAt { off, .. } => (at_of(*off).1.max(t_sub as i64)) as u64,
+          Src::Timer { d } => t_sub + *d as u64 * MS / 10,
+          Src::TimerAt { off } => (at_of(*off).1.max(t_sub as i64)) as u64,
+          _ => t_sub,
+        };
+        if first_due > t_sub {
+          w.advance_by((first_due - t_sub) / 2);
+          trace.push_str("late-start ");
+        }
+      }
       // the executor runs as timers fall due: FIFO to idle, jump exactly to the
       // next deadline, repeat; external gates are released whenever it stalls
       let mut rounds = 0;
